@@ -39,3 +39,47 @@ def psig_dict(ps):
     return {"ver": ps.ip_version, "olen": ps.ip_options_length, "ttl": ps.ttl, "win": ps.window_size, "layout": [int(x) for x in o.layout],
             "mss": o.mss, "ws": o.window_scale, "ts1": o.timestamp, "eol": o.eol_padding_length, "hdr": ps.headers_length,
             "pay": bool(ps.has_payload), "quirks": ps.quirks.value, "syn_mss": ps.syn_mss}
+
+
+# ---- database dump in the canonical form the model prints (texts as hex) ----
+def _hx(s):
+    if s is None:
+        return None
+    return (s if isinstance(s, (bytes, bytearray)) else s.encode("utf-8")).hex()
+
+
+def dump_sig(sig):
+    from pyp0f.database.signatures import HTTPSignature, MTUSignature, TCPSignature
+    if isinstance(sig, MTUSignature):
+        return sig.mtu
+    if isinstance(sig, TCPSignature):
+        return {"ver": sig.ip_version, "olen": sig.ip_options_length, "ttl": sig.ttl, "bad_ttl": bool(sig.is_bad_ttl),
+                "wtype": sig.window.type.value - 1, "wsize": sig.window.size, "wscale": sig.window.scale,
+                "layout": [int(x) for x in sig.options.layout], "mss": sig.options.mss, "eol": sig.options.eol_padding_length,
+                "pay": sig.payload_class, "quirks": sig.quirks.value}
+    assert isinstance(sig, HTTPSignature)
+    return {"version": sig.version, "headers": [[_hx(h.name), bool(h.is_optional), _hx(h.value), _hx(h.lower_name)] for h in sig.headers],
+            "absent": sorted(_hx(a) for a in sig.absent_headers), "software": _hx(sig.expected_software),
+            "header_names": sorted(_hx(a) for a in sig.header_names)}
+
+
+def dump_record(r):
+    from pyp0f.database.labels import Label
+    lab = r.label
+    return {"line": r.line_number,
+            "label": {"dump": _hx(lab.dump()), "sys": [_hx(x) for x in lab.sys] if isinstance(lab, Label) else None, "generic": bool(r.is_generic)},
+            "raw": _hx(r.raw_signature), "sig": dump_sig(r.signature)}
+
+
+def dump_db(db):
+    from pyp0f.database.records import HTTPRecord, MTURecord, TCPRecord
+    from pyp0f.exceptions import DatabaseError
+    from pyp0f.net.packet import Direction
+
+    def sec(cls, d):
+        try:
+            return [dump_record(r) for r in db.iter_values(cls, d)]
+        except DatabaseError:
+            return None
+    return {"mtu": sec(MTURecord, None), "tcp_req": sec(TCPRecord, Direction.CLIENT_TO_SERVER), "tcp_resp": sec(TCPRecord, Direction.SERVER_TO_CLIENT),
+            "http_req": sec(HTTPRecord, Direction.CLIENT_TO_SERVER), "http_resp": sec(HTTPRecord, Direction.SERVER_TO_CLIENT), "len": len(db)}
